@@ -4,6 +4,36 @@ import json, os
 ROOT = os.path.dirname(os.path.dirname(os.path.abspath(__file__)))
 
 CHECKS = {
+ "C12": dict(
+   technique="property-based print/re-check testing with bisimulation of type graphs, over generated programs and Rust-exported environments (proptest)",
+   text="Generated well-typed programs (every constructor, odd labels and method names, recursion, aliases, service constructors) are checked from text printed with random shorthands; the type-level printer, the doc-carrying printer and the syntax-tree printer must each produce text that re-checks to an interface bisimilar to the original with the same definition names; service_equal, instantiate_candid and get_metadata must agree; printing is deterministic; environments exported from ~230 Rust types are treated likewise. Exploration.",
+   note="Equality is bisimilarity computed by the harness; the harness's own emitter is validated against the checker in the same run (checker-misreads-program).",
+   ref="DESIGN.md §5 C12"),
+ "C14": dict(
+   technique="property-based differential testing against an independent well-formedness checker, with single-fault mutants of generated programs (proptest)",
+   text="Well-formed generated programs must be accepted and each of eleven single-fault mutant classes (placed at random type positions, behind alias chains, in init args) must be rejected, the verdict re-derived by an independent checker; accepted environments must be closed under trace/as_func/as_service/self-subtype/chase_actor/encoding. Exploration: every fault class is hit thousands of times per quick run.",
+   note="Imports are not generated; argument-name and nested-constructor faults exist only at text level.",
+   ref="DESIGN.md §5 C14"),
+ "C15": dict(
+   technique="property-based cross-entry-point consistency testing against an independent hash (proptest + fixed derive/macro checks)",
+   text="For label strings from adversarial pools, the library hash, Label equality/order/hash, text values, .did types, typed encoding/decoding and duplicate rejection are checked against the spec hash computed independently; the derive macro's private hash is observed through _ty_doc() keys of documented structs/enums with renamed/raw/non-ASCII/numeric names; record!/variant! ordering and duplicate panics; 14 colliding pairs. Exploration over labels.",
+   note="The derive macro can only be observed for names fixed at compile time.",
+   ref="DESIGN.md §5 C15"),
+ "C17": dict(
+   technique="property-based translation checking: the emitted JavaScript is evaluated by a purpose-built interpreter and compared by bisimulation (proptest)",
+   text="The module emitted for generated programs (definition names from JavaScript reserved/strict/module words and their twins, odd method and field names, recursion, init args) is evaluated under ECMAScript module rules by an interpreter of exactly the emitted subset, against an IDL object that builds a type graph; the returned service and init list must be bisimilar to the program's. Exploration.",
+   note="No JavaScript engine decides verdicts; the interpreter's reading of ECMAScript lexical and binding rules is trusted (unit-tested).",
+   ref="DESIGN.md §5 C17"),
+ "C19": dict(
+   technique="property-based totality/determinism testing plus lexical and name-set closure checks and a doc-comment injection metamorphic relation (proptest, per-language lexers)",
+   text="All four generators (Rust in three targets) run on generated checked programs printed once with benign and once with hostile doc comments: no panic, identical output on re-run, output lexes and balances under the target's lexical grammar, token streams outside comments are identical for both doc texts, TypeScript/Motoko names are closed and unique, service methods appear exactly once, string literals decode to program names. Exploration; no TypeScript/Motoko compiler is available.",
+   note="Closure is structural (lexers and name sets), weaker than compiling; Rust is compiled in C18 and JavaScript evaluated in C17.",
+   ref="DESIGN.md §5 C19"),
+ "C20": dict(
+   technique="property-based testing of the random value generator against an independent typing judgement, over seeds and configurations (proptest)",
+   text="random::any on generated environments (including uninhabited types), seeds (empty, constant, random up to 4 KiB) and TOML configurations (depth/size/width/range/text/value/scoped) must return Err or values that inhabit the types by an independent typing judgement, survive annotation unchanged and encode; no panic or process death. Exploration; termination is observed, not proved.",
+   note="Value depth versus configured depth is a statistic only.",
+   ref="DESIGN.md §5 C20"),
  "C11": dict(
    technique="property-based print/parse round-trip testing of untyped values with adversarial text and label pools (proptest)",
    text="Generated canonical values of generated types, with text, labels and method names from pools biased to control characters, NUL, quotes, backslash, keywords and exotic Unicode, big numbers, vectors above the abbreviation threshold and deep nesting, are printed by Display and Debug (IDLArgs and IDLValue), parsed back and re-annotated; the abstract value must be unchanged and printing deterministic. Exploration.",
